@@ -776,7 +776,8 @@ Proof.
       - eapply op_putn_mono; eauto; lia.
       - simpl in Ho. discriminate.
       - eapply op_get_mono; eauto; lia.
-      - eapply op_copy_mono; eauto; lia. }
+      - eapply op_copy_mono; eauto; lia.
+      - simpl in Ho. discriminate. }
     destruct M1 as (A1 & B1 & _ & D1).
     pose proof (run_ops_mono r fr1 (f_end fr1) ltac:(congruence) ltac:(congruence) ltac:(lia) Hr _ _ R2) as (_ & B2 & _).
     assert (PR1 : exists T1, PFr img0 bl0 (apply_log img w1) fr1 T1).
@@ -786,7 +787,8 @@ Proof.
       - eapply step_putn; eauto. lia.
       - simpl in Ho. discriminate.
       - destruct (step_get _ _ _ _ _ PR _ _ R1) as (X & _). eauto.
-      - eapply step_copy; eauto. lia. }
+      - eapply step_copy; eauto. lia.
+      - simpl in Ho. discriminate. }
     destruct PR1 as (T1 & PR1). rewrite apply_log_app. eapply IH; eauto.
 Qed.
 
@@ -982,4 +984,46 @@ Proof.
   intros W P L Hok R Hb.
   destruct (run_ops_reaches_flush_state_lemma _ _ _ _ _ _ W P L Hok R Hb) as (T & S).
   eapply prefix_safe_flush_lemma; eauto.
+Qed.
+
+(** ---- first sentence of the property, for EVERY prefix of the pre-flush log and for the wide class of sessions
+    (creations, reads and copies, deletions, record rewrites through descriptor reuse): writes at or above the old
+    end of file cannot touch an old DD block or old data, so the image opens and every old object reads back *)
+Lemma PF_writes_above img0 bl0 M e T l : forall cur,
+  PF img0 bl0 cur M e T -> Forall (fun w => e <= fst w) l -> PF img0 bl0 (apply_log cur l) M e T.
+Proof.
+  induction l as [|w l IH]; intros cur P F; simpl; auto.
+  inversion F as [|? ? Hw Fl]; subst. apply IH; auto. apply L_write; auto.
+  assert (A : Above bl0 T e) by (destruct P as (_ & _ & _ & _ & _ & _ & _ & A & _); exact A).
+  eapply Above_mono; eauto.
+Qed.
+
+Lemma above_writes_preserve img bl l :
+  wf_image img = true -> parse_file img = Some bl -> log_above (old_end bl) l = true ->
+  preserves img (apply_log img l) = true.
+Proof.
+  intros W P L.
+  pose proof (init_PF img bl W P) as P0.
+  assert (F : Forall (fun w => old_end bl <= fst w) l).
+  { apply Forall_forall. intros w Hw. unfold log_above in L. rewrite forallb_forall in L. apply Z.leb_le. auto. }
+  pose proof (PF_writes_above _ _ _ _ _ l img P0 F) as P1.
+  set (fr := mkfrec (map (fun b => mkmb b false) bl) (old_end bl) true false false 0).
+  apply (flush_state_safe img bl (apply_log img l) fr (T_init bl)).
+  apply PF_flush_state. simpl. rewrite map_map. simpl. rewrite map_id. exact P1.
+Qed.
+
+Lemma forallb_firstn {A} (f : A -> bool) j l : forallb f l = true -> forallb f (firstn j l) = true.
+Proof.
+  revert l; induction j; intros l H; simpl; auto. destruct l; simpl in *; auto.
+  apply andb_prop in H. destruct H as [H1 H2]. rewrite H1. simpl. auto.
+Qed.
+
+Lemma prefix_safe_before_flush_lemma img bl fr ops fr1 pre j :
+  wf_image img = true -> parse_file img = Some bl -> load img true = Some fr -> forallb op_ok1 ops = true ->
+  run_ops fr ops = (fr1, pre) ->
+  preserves img (apply_log img (firstn j pre)) = true.
+Proof.
+  intros W P L Hok R.
+  destruct (append_only_above_old_end_lemma img bl fr ops fr1 pre P L Hok R) as [LA _].
+  apply (above_writes_preserve img bl); auto. unfold log_above in *. apply forallb_firstn. exact LA.
 Qed.
